@@ -108,7 +108,8 @@ def run(ctx):
     if diverged and not groups:
         ctx.fail("%d edges diverged while re-creating their source state although no edge mismatched" % diverged)
     drift = []
-    for sig in sorted(groups)[:12]:
+    order = sorted(groups, key=lambda g: (min(len(x["h"]) for x in groups[g]), g))
+    for sig in order[:16]:
         o = min(groups[sig], key=lambda x: len(x["h"]))
         ok, idx = monitor(ctx, o["trace"])
         if ok:
